@@ -22,6 +22,8 @@ T = {
          "the external bindings are stand-ins embodying the stated contract (sgio: CheckConditionError(sense)/UnspecifiedError; iscsi: task.status/raw_sense); what the real C bindings do is not verified; Exec model hand-written, tied exhaustively"),
  "C08": ("Lean theorems never_raises and reports_spc_fields for every non-empty sense buffer (any response code, length, contents), T10 texts of ~80 well-known ASC/ASCQ codes decided on the regenerated table; correspondence incl. all 65536 pairs",
          "sense layout/text tables regenerated from source; Std/Sense.lean text list is partial (remaining table entries modelled, not verified); length-0 buffers outside the property"),
+ "C11": ("Lean: every decoder model is a total function (each loop accepted by the termination checker with a proof that the buffer shrinks) and iteration-count bounds proved for every byte string; witness that the pre-repair READ ELEMENT STATUS loop diverges; on the real code every unmarshall routine and the sense decoder run under a traced-line budget on hostile buffers, and agree with the model where both decode",
+         "termination of the real Python code is decided by the budgeted run (Lean cannot exhibit a hang of the real program); decoder models hand-written, tied on ~40k hostile buffers; REPORT PRIORITY has no model"),
  "C12": ("Lean theorems: the conformant target (decoding by byte position) refines an abstract disk for every sequence of write/write-same/sync/read commands (induction), write-then-read for any LBA/length/block size/payload, capacity and identity replies; library CDBs are conformant by C01; correspondence runs the real facade over both transports against the Lean target",
          "the target is a Lean model (real devices/bindings not verified); composition with C01/C03 is by citation of those theorems' conclusions (Conformant hypothesis); WRITE SAME is covered at the target-effect level"),
  "C13": ("Lean theorems about the facade method model for all behaviours of constructor/device/decoder + kernel-decided facts about the 38 methods (shape, documented class, opcode source, by-name forwarding) on the description regenerated from scsi.py; correspondence over a recording device with every subset of optional kwargs and failure injection",
